@@ -24,17 +24,22 @@ META = {
             "with a drawn integer, FE budget 1..400), every register(x, y) "
             "checked; non-trivial = the run accepted at least one move with "
             "i = 0 and one with j = n-2 (moves inferred from consecutive "
-            "registered tours); distinct = distinct cases",
+            "registered tours). Part fea@bc (worker with NUMBA_BOUNDSCHECK=1): "
+            "FEA runs on instances whose upper tour-length bound is attained "
+            "(all distances equal, all but one, two clusters) plus ordinary "
+            "runs - an index outside the frequency table, which is local to "
+            "solve(), raises IndexError there; distinct = distinct cases",
     "assumptions": [
         "only symmetric instances with n >= 4 (for n <= 3 the algorithms "
         "skip every move, DESIGN.md section 5 O1)",
         "the stub process offers get_random, create, evaluate, register, "
         "should_terminate - what the two solve() methods use",
-        "algorithm-level FEA table accesses are local to solve(); they are "
-        "covered by the bounds-checked runs of C13, here only at kernel "
-        "level (table owned by the check)",
+        "algorithm-level FEA table accesses are local to solve(): they are "
+        "observed in the bounds-checked part fea@bc (and again in C13), at "
+        "kernel level through a table owned by the check",
         "reference lengths are Python big-int cyclic sums (vf/oracle_tsp.py)"],
     "shards": [4, 16],
+    "parts": ["main", "fea@bc"],
     "technique": "property-based testing: Hypothesis-generated instances, "
                  "tours, moves and seeded runs; every (tour, length) pair "
                  "handed to a stub process is re-computed from scratch",
@@ -313,10 +318,49 @@ def check_run(ctx: Ctx, case: dict) -> None:
                  labels=labels)
 
 
-SUBS = {"kernel": check_kernel, "run": check_run}
+@st.composite
+def fea_table_cases(draw: Any) -> dict:
+    """FEA runs on instances whose upper tour-length bound is attained by
+    real tours (all distances equal, all equal but one edge, two clusters):
+    the frequency table is then addressed at its last entry. Executed in the
+    bounds-checked part, where an index outside the table (which is local to
+    solve()) raises IndexError."""
+    n = draw(st.integers(4, 10))
+    v = draw(st.sampled_from([1, 2, 7, 100, 1000]))
+    kind = draw(st.sampled_from(["const", "one_shorter", "one_longer",
+                                 "clusters"]))
+    m = [[0 if i == j else v for j in range(n)] for i in range(n)]
+    if kind == "one_shorter" and v > 1:
+        a, b = draw(st.integers(0, n - 1)), draw(st.integers(0, n - 1))
+        if a != b:
+            m[a][b] = m[b][a] = v - 1
+    elif kind == "one_longer":
+        a, b = draw(st.integers(0, n - 1)), draw(st.integers(0, n - 1))
+        if a != b:
+            m[a][b] = m[b][a] = v + draw(st.integers(1, 3))
+    elif kind == "clusters":
+        half = n // 2
+        for i in range(n):
+            for j in range(n):
+                if i != j and (i < half) == (j < half):
+                    m[i][j] = max(1, v // 2)
+    return {"algo": "fea",
+            "mat": {"n": n, "m": m, "kind": "sym", "cls": "ub_" + kind,
+                    "in_dtype": "int64"},
+            "seed": draw(st.integers(0, 2 ** 63 - 1)),
+            "budget": draw(st.integers(20, 400))}
+
+
+SUBS = {"kernel": check_kernel, "run": check_run, "fea_table": check_run}
 
 
 def run(ctx: Ctx) -> None:
+    if ctx.boundscheck:  # part "fea@bc": NUMBA_BOUNDSCHECK=1
+        ctx.given("fea_table", fea_table_cases(), check_run, quick=120,
+                  thorough=16 * 600)
+        ctx.given("run", run_cases(), check_run, quick=80,
+                  thorough=16 * 300)
+        return
     ctx.given("kernel", kernel_cases(), check_kernel, quick=3000,
               thorough=16 * 12000)
     ctx.given("run", run_cases(), check_run, quick=300, thorough=16 * 2000)
